@@ -51,7 +51,9 @@ META = {
             "runs first on every seed; it includes matrices NEARLY symmetric / triangular / diagonal / rank-deficient / zero at "
             "relative distances 1e-3..1e-14, complex operands, aliased operands, shared-default objects, property subclasses, "
             "batches up to 2^17+1 (2^20+1 thorough).  A case is non-trivial when the system has at least 2 unknowns (sparse: at "
-            "least one stored block on each side) and distinct by its full discrete signature.",
+            "least one stored block on each side) and distinct by its full discrete signature.  Sparse products additionally draw "
+            "ILL-SCALED operands (one block row of A / block column of B times 1e5, 1e9, 2^53, 1e+-30, first / middle / last): integer "
+            "data in float compared exactly, float data against the componentwise bound 64 n u sum|a||b| of each entry.",
     "trusted": [
         "torch.linalg.pinv / lstsq / cholesky_ex / cholesky_solve, torch.addmm and layout conversions (external kernels: "
         "hypotheses of the theorems; pinv's Penrose conditions are re-measured per case and reported)",
@@ -1036,13 +1038,13 @@ def run_chol_cases(ctx: Ctx, cases):
 
 class Spy(torch.Tensor):
     """counts matmul calls that involve the wrapped operand (public extension point of torch)"""
-    log: list = []
+    c10h_matmul_log: list = []
 
     @classmethod
     def __torch_function__(cls, func, types, args=(), kwargs=None):
         kwargs = kwargs or {}
         if getattr(func, "__name__", "") == "matmul":
-            cls.log.append("out" if "out" in kwargs else "plain")
+            cls.c10h_matmul_log.append("out" if "out" in kwargs else "plain")
         with torch._C.DisableTorchFunctionSubclass():
             return func(*args, **kwargs)
 
@@ -1238,13 +1240,13 @@ def cg_call(case, A, b, x0, M, spy=False):
     elif gm != "plain":
         x = call_in_mode(gm, go, [Al, bb, xx, Ml])
     elif spy and case["layout"] == "dense":
-        Spy.log = []
+        Spy.c10h_matmul_log = []
         x = go(Al.as_subclass(Spy), bb, xx, Ml)
-        K = Spy.log.count("out")
+        K = Spy.c10h_matmul_log.count("out")
     elif spy and Ml is not None and case["Mlayout"] == "dense":
-        Spy.log = []
+        Spy.c10h_matmul_log = []
         x = go(Al, bb, xx, Ml.as_subclass(Spy))
-        K = Spy.log.count("out")
+        K = Spy.c10h_matmul_log.count("out")
     else:
         x = go(Al, bb, xx, Ml)
     return x, K, (Al, bb, Ml, xx)
@@ -1443,7 +1445,47 @@ def sparse_build(case):
         VB = (torch.randn(sn, sp, dn, dp, generator=g, dtype=torch.float64) * 2.0 ** case.get("vscale2", 0)).to(dt)
     if case.get("zeroval"):  # stored blocks whose values are all zero
         VA = VA * (torch.rand(sm, sn, 1, 1, generator=g) < 0.5).to(dt)
+    if case.get("ill"):
+        VA, VB = ill_scale(case, VA, VB)
     return PA, PB, VA, VB
+
+
+# (45) ill-scaled operands inside one product: ONE block row of A (or block column of B) in other units than the rest.  Every
+# output block still is a short, perfectly conditioned sum (all its terms carry the same factor), so integer data stay exactly
+# representable (power-of-two factors) and float data obey the componentwise bound.
+ILL_MAGS = {"1e5": (17, 1e5), "1e9": (30, 1e9), "2^53": (53, 2.0 ** 53), "1e30": (100, 1e30), "1e-30": (-100, 1e-30),
+            "1e-9": (-30, 1e-9)}
+ILL_WHERE = ("rowfirst", "rowlast", "rowmid", "colfirst", "collast", "rowcolfirst")
+
+
+def ill_factor(case):
+    e2, dec = ILL_MAGS[case["ill"]["mag"]]
+    lim = 30 if case["ill"]["where"] == "rowcolfirst" else 60     # (the corner block carries the factor twice: stay clear of
+    if case["dtype"] == "float32" and abs(e2) > lim:                #  float32 overflow / gradual underflow, where no bound holds)
+        e2, dec = (lim, 2.0 ** lim) if e2 > 0 else (-lim, 2.0 ** -lim)
+    return 2.0 ** e2 if (case["data"] == "int" or case["ill"].get("pow2")) else dec
+
+
+def ill_scale(case, VA, VB):
+    f = ill_factor(case)
+    w = case["ill"]["where"]
+    VA, VB = VA.clone(), VB.clone()
+    sm, sp = VA.shape[0], VB.shape[1]
+    if w in ("rowfirst", "rowcolfirst"):
+        VA[0] = (VA[0].double() * f).to(VA.dtype)
+    if w == "rowlast":
+        VA[sm - 1] = (VA[sm - 1].double() * f).to(VA.dtype)
+    if w == "rowmid":
+        VA[sm // 2] = (VA[sm // 2].double() * f).to(VA.dtype)
+    if w in ("colfirst", "rowcolfirst"):
+        VB[:, 0] = (VB[:, 0].double() * f).to(VB.dtype)
+    if w == "collast":
+        VB[:, sp - 1] = (VB[:, sp - 1].double() * f).to(VB.dtype)
+    return VA, VB
+
+
+def ill_txt(case):
+    return f", ILL-SCALED: {case['ill']['where']} x{case['ill']['mag']} (factor {ill_factor(case):.6g})" if case.get("ill") else ""
 
 
 def compressed(P, V, by_rows):
@@ -1538,8 +1580,13 @@ def check_sparse(ctx: Ctx, case, lines_out=None):
     if not good:
         bad = (yd - want).abs()
         i, j = divmod(int(bad.argmax()), want.shape[1])
+        if case["data"] != "int":      # worst entry RELATIVE to its own bound (not the largest absolute error)
+            i, j = divmod(int((bad / (scale + 1e-300)).argmax()), want.shape[1])
         ctx.fail(cc, f"sparse-product: {case['api']} != dense product (grid {sm}x{sn}x{sp}, blocks {dm}x{dn}x{dp}, patterns "
-                     f"{case['pa']}/{case['pb']}, max error {float(bad.max()):.3e} at ({i},{j}), block ({i // dm},{j // dp}))")
+                     f"{case['pa']}/{case['pb']}, max error {float(bad.max()):.3e}; entry ({i},{j}) of block ({i // dm},{j // dp}): "
+                     f"returned {float(yd[i, j])!r}, exact {float(want[i, j])!r}, sum|a||b| = "
+                     f"{float((DA.double().abs() @ DB.double().abs())[i, j]):.3e}; operand rows A[{i},:] = {DA[i].tolist()[:12]}, "
+                     f"B[:,{j}] = {DB[:, j].tolist()[:12]}{ill_txt(case)})")
         ok = False
     if case.get("stale") and len(col):
         # the caller updates the operand's values in place and multiplies again: the result must describe the current state
@@ -1641,6 +1688,11 @@ def check_dispatch(ctx: Ctx, case, route=None):
     dt = tdt(case["dtype"])
     DA = (torch.randint(-3, 4, (m, n), generator=g) * (torch.rand(m, n, generator=g) < case["dens"])).to(dt)
     DB = (torch.randint(-3, 4, (n, p), generator=g) * (torch.rand(n, p, generator=g) < case["dens"])).to(dt)
+    if case.get("ill"):      # (45) first / last block row of the left operand in other units (power of two: still exact)
+        e2 = ILL_MAGS[case["ill"]["mag"]][0]
+        e2 = max(min(e2, 60), -60) if case["dtype"] == "float32" else e2
+        rows = slice(0, k) if case["ill"]["where"] == "rowfirst" else slice(m - k, m)
+        DA[rows] = DA[rows] * 2.0 ** e2
     a, b = conv(DA, case["l1"], (k, k)), conv(DB, case["l2"], (k, k))
     want = DA.double() @ DB.double()
     cc = dict(case)
@@ -1845,6 +1897,19 @@ def corner_cases():
         sp(data="float", vscale=-100, vscale2=100, seed=9010), sp(data="float", dtype="float32", vscale=-40, seed=9011),
         {**sp(seed=9012), "malformed": "blk", "dn2": 1}, {**sp(seed=9013), "malformed": "dim"},
     ]
+    # (45) ill-scaled operands inside one product: every magnitude x position (large block first AND last, a small block after
+    # normal ones), integer data in float compared exactly, float data against the componentwise bound, both entry points
+    ki = 0
+    for mag in ILL_MAGS:
+        for where in ILL_WHERE:
+            for data, dtype in (("int", "float64"), ("float", "float64"), ("int", "float32"), ("float", "float32")):
+                C["sparse"].append(sp(sm=3, sn=2 + ki % 3, sp=3, dm=1 + ki % 2, dn=1 + ki % 3, dp=1 + (ki // 2) % 2, da=1.0 if ki % 2 else 0.7,
+                                      db=1.0 if ki % 3 else 0.7, data=data, dtype=dtype, seed=9100 + ki, stale=False,
+                                      api="bsr_bsc_matmul" if ki % 4 else "_sparse_csr_mm", ill={"mag": mag, "where": where}))
+                ki += 1
+    C["sparse"] += [sp(sm=2, sn=1, sp=1, dm=1, dn=1, dp=1, pa="full", pb="full", data="int", seed=9190, ill={"mag": "2^53", "where": "rowfirst"}),
+                    sp(sm=6, sn=6, sp=6, dm=2, dn=2, dp=2, da=0.8, db=0.8, data="float", seed=9191, ill={"mag": "1e5", "where": "rowfirst"}),
+                    sp(sm=12, sn=10, sp=12, dm=2, dn=2, dp=2, da=0.5, db=0.5, data="float", seed=9192, stale=False, ill={"mag": "1e9", "where": "rowmid"})]
     return C
 
 
@@ -2189,7 +2254,7 @@ def check_subclass(ctx: Ctx):
     class MyCG(s.CG):
         def __init__(self):
             super().__init__(tol=1e-9)
-            self.note = "user"
+            self.c10h_note = "user"
 
     class MyCG2(s.CG):
         pass
@@ -2254,10 +2319,10 @@ def check_subclass(ctx: Ctx):
     class Wrap(torch.nn.Module):
         def __init__(self, inner):
             super().__init__()
-            self.inner = inner
+            self.c10h_inner = inner
 
         def forward(self, A, b):
-            return self.inner(A, b)
+            return self.c10h_inner(A, b)
 
     g = gen(2100)
     n = 30
@@ -2982,6 +3047,12 @@ def gen_sparse_cases(ctx: Ctx, count):
         if rng.random() < 0.06:      # beyond the documented block sizes 1..4 / small grids
             cases[-1].update({"sm": rng.randint(7, 12), "sn": rng.randint(7, 12), "sp": rng.randint(1, 12)} if rng.random() < 0.5
                              else {"dm": rng.randint(5, 8), "dn": rng.randint(5, 8), "dp": rng.randint(5, 8)})
+        if rng.random() < 0.3:       # (45) one block row / block column in other units
+            cases[-1]["ill"] = {"mag": rng.choice(list(ILL_MAGS)), "where": rng.choice(ILL_WHERE), "pow2": rng.random() < 0.3}
+            cases[-1].update({"vscale": 0, "vscale2": 0, "zeroval": False})
+            if rng.random() < 0.6:
+                cases[-1].update({"sm": max(cases[-1]["sm"], 2), "sp": max(cases[-1]["sp"], 2),
+                                  "da": rng.choice([0.5, 0.8, 1.0]), "db": rng.choice([0.5, 0.8, 1.0]), "pa": "random", "pb": "random"})
         if cases[-1]["dtype"] == "float32":
             cases[-1]["vscale"] = max(min(cases[-1]["vscale"], 40), -40)
             cases[-1]["vscale2"] = max(min(cases[-1]["vscale2"], 40), -40)
@@ -3078,7 +3149,11 @@ def run_sparse(ctx: Ctx, cases):
         guarded(ctx, case, check_sparse, lines)
         PA, PB, _, _ = sparse_build(case)
         ctx.note_case(("sparse", case["api"], case["sm"], case["sn"], case["sp"], case["dm"], case["dn"], case["dp"], case["pa"], case["pb"],
-                       case["da"], case["db"], case["data"], case["dtype"]), bool(PA.any()) and bool(PB.any()))
+                       case["da"], case["db"], case["data"], case["dtype"],
+                       (case["ill"]["mag"], case["ill"]["where"]) if case.get("ill") else None), bool(PA.any()) and bool(PB.any()))
+        if case.get("ill"):
+            ctx.count("sparse.ill." + case["ill"]["where"])
+            ctx.count("sparse.ill.mag." + case["ill"]["mag"])
         ctx.count(f"sparse.block.{case['dm']}x{case['dn']}x{case['dp']}" if case["dm"] == case["dn"] == case["dp"] else "sparse.block.mixed")
         ctx.count("sparse.nnz." + ("emptyA" if not PA.any() else "emptyB" if not PB.any() else "both"))
         ctx.sample({"stream": "sparse", **case}, cap=16)
@@ -3099,6 +3174,9 @@ def run_dispatch(ctx: Ctx, skip_merge_join=False):
             case = {"kind": "dispatch", "l1": a, "l2": b, "bs": rng.choice([1, 2, 3]), "gm": rng.randint(1, 3), "gn": rng.randint(1, 3),
                     "gp": rng.randint(1, 3), "dens": rng.choice([0.0, 0.3, 0.7, 1.0]), "dtype": rng.choice(["float64", "float32"]),
                     "seed": rng.randrange(1 << 30)}
+            if rng.random() < 0.5:
+                case["ill"] = {"mag": rng.choice(list(ILL_MAGS)), "where": rng.choice(["rowfirst", "rowlast"])}
+                case["gm"] = max(case["gm"], 2)
             guarded(ctx, case, check_dispatch, toks[1])
             ctx.note_case(("dispatch", a, b, case["bs"], case["dens"]), True)
 
